@@ -531,7 +531,12 @@ def _nearmiss_case(draw):
                   name.replace('.', '..', 1) if '.' in name else name + '..x',
                   name + '.', '/' + sel][k]
     else:
-      bad_name = draw(st.sampled_from(['a.b/' + sel, 's/m1.x/' + sel, name + '/', 'm1.sub/' + sel])
+      # a period in a scope name at any level (outermost, middle, innermost) of 1-4 levels
+      levels = draw(st.lists(st.sampled_from(['s', 't', 'a', 'b1', 'Sc_2']), min_size=1, max_size=4))
+      k = draw(st.integers(0, len(levels) - 1))
+      levels[k] = draw(st.sampled_from(['m1.x', 'a.b', 'dotted.scope', 'x.y.z']))
+      bad_name = draw(st.sampled_from(['a.b/' + sel, 's/m1.x/' + sel, name + '/', 'm1.sub/' + sel,
+                                       '/'.join(levels) + '/' + sel, '/'.join(levels) + '/' + sel])
                       if where in ('key', 'block', 'macrodef') else
                       st.sampled_from([sel + '/', '/' + name, name + '//x']))
     if where == 'key':
